@@ -1,4 +1,5 @@
 import os
+import re
 import sys
 import platform
 import shutil
@@ -706,20 +707,30 @@ class StringDict:
         self._string = string
         self._delim = delim
 
-    def __getitem__(self, item: str) -> Any:
-        split_string = self._string.split(f"{item}{self._delim}")
-        try:
-            return self._value_type(split_string[1].split()[0])
+    def _value_string(self, item: str) -> Optional[str]:
+        """String value of the first item that is a whole key"""
+        match = re.search(
+            rf"(?:^|\s){re.escape(item)}{re.escape(self._delim)}(\S+)",
+            self._string,
+        )
+        return None if match is None else match.group(1)
 
-        except (ValueError, IndexError) as e:
+    def __getitem__(self, item: str) -> Any:
+        try:
+            value_string = self._value_string(item)
+            if value_string is None:
+                raise ValueError(f"{item} was not present")
+
+            return self._value_type(value_string)
+
+        except (ValueError, TypeError) as e:
             raise IndexError(
                 f"Failed to extract {item} from {self._string} "
                 f"using delimiter *{self._delim}*"
             ) from e
 
     def __contains__(self, item: str) -> bool:
-        split_string = self._string.split(f"{item}{self._delim}")
-        return len(split_string) == 2
+        return self._value_string(item) is not None
 
     def get(self, item: str, default: Any) -> Any:
         """Get an item or return a default"""
